@@ -36,6 +36,9 @@ fn max_rt_by_file(features: &[Feature], n_files: usize) -> Vec<f64> {
     max_rt
         .into_iter()
         .map(|v| v.load(std::sync::atomic::Ordering::Acquire) as f64)
+        // a file without retention times (all zero, e.g. MGF without RTINSECONDS)
+        // keeps a unit scale instead of dividing by zero later on
+        .map(|v| if v > 0.0 { v } else { 1.0 })
         .collect()
 }
 
